@@ -75,12 +75,12 @@ theorem start_succ (level : Array Nat) (lev : Nat) :
 /-! ### histogram and partial sums -/
 
 theorem csHist_size (level : Array Nat) : (csHist level).size = nlev level + 1 := by
-  unfold csHist
+  unfold csHist csHistN
   rw [(hist_fold (fun i => level.getD i 0 + 1) _ _).1]; simp
 
 theorem csHist_getD (level : Array Nat) (k : Nat) (hk : k < nlev level + 1) :
     (csHist level).getD k 0 = (List.range level.size).countP (fun i => level.getD i 0 + 1 == k) := by
-  unfold csHist
+  unfold csHist csHistN
   rw [(hist_fold (fun i => level.getD i 0 + 1) _ _).2 k (by simpa using hk)]
   simp [Array.getD_eq_getD_getElem?, hk]
 
@@ -380,7 +380,8 @@ theorem start_array_getD (level : Array Nat) (lev : Nat) (h : lev < nlev level +
 every thread count, the rows `order[t.beg .. t.end)` of `tasks[tid][lev]` are the `tid`-th chunk of the rows of
 level `lev` -/
 theorem scheduleLit_eq_tasks (level : Array Nat) (nt : Nat) : scheduleLit level nt = tasks level nt := by
-  unfold scheduleLit tasks tasksLit
+  unfold scheduleLit scheduleLitN tasks tasksLit
+  rw [show countingSortLitN level (nlev level) = countingSortLit level from rfl]
   rw [countingSortLit_eq]
   simp only [List.map_map]
   apply List.map_congr_left
@@ -517,4 +518,45 @@ theorem threadOrderSchedule_tasks (level : Array Nat) (nt : Nat) (hnt : 0 < nt) 
   intro lev hlev
   exact levelTasks_flatten level nt hnt lev (List.mem_range.mp hlev)
 
+/-! ### every array access of steps 2–4 is in bounds -/
+
+/-- **no out-of-bounds access in step 2**: the histogram increment `++start[level[i]+1]` and, in iteration `k` of
+the scatter loop, the read/increment of `start[level[k]]` and the write `order[start[level[k]]] = k` are in bounds -/
+theorem scatter_in_bounds (level : Array Nat) (k : Nat) (hk : k < level.size) :
+    level.getD k 0 + 1 < (csHist level).size ∧
+    (let os := (List.range k).foldl (scatterStep level)
+        (Array.replicate level.size 0, csPsum (csHist level) (nlev level + 1))
+     level.getD k 0 < os.2.size ∧ os.2.getD (level.getD k 0) 0 < os.1.size) := by
+  have hl := lt_nlev level k hk
+  refine ⟨by rw [csHist_size]; omega, ?_⟩
+  rw [csPsum_csHist]
+  have inv := scatter_inv level k (by omega)
+  generalize (List.range k).foldl (scatterStep level) _ = os at inv
+  refine ⟨by rw [inv.size2]; omega, ?_⟩
+  rw [inv.st _ (by omega), inv.size1]
+  exact pos_lt level k hk
+
+theorem getD_map_range {α : Type} (f : Nat → α) (n k : Nat) (d : α) (hk : k < n) :
+    ((List.range n).map f).getD k d = f k := by
+  rw [List.getD_eq_getElem?_getD, List.getElem?_map, List.getElem?_range hk]; rfl
+
+theorem start_le_size (level : Array Nat) (lev : Nat) : start level lev ≤ level.size := by
+  unfold start
+  exact Nat.le_trans (List.length_filter_le _ _) (by simp)
+
+/-- **no out-of-bounds access in steps 3–4**: every `task(beg, end)` satisfies `beg ≤ end ≤ n`, so every read
+`order[r]`, `beg ≤ r < end`, is in bounds -/
+theorem tasksLit_in_bounds (level : Array Nat) (nt tid lev : Nat) (htid : tid < nt) (hlev : lev < nlev level) :
+    let t := ((tasksLit (countingSortLit level).2 (nlev level) nt).getD tid []).getD lev (0, 0)
+    t.1 ≤ t.2 ∧ t.2 ≤ (countingSortLit level).1.size := by
+  simp only [countingSortLit_eq, tasksLit]
+  rw [getD_map_range _ _ _ _ htid, getD_map_range _ _ _ _ hlev]
+  simp only []
+  rw [start_array_getD level lev (by omega), start_array_getD level (lev + 1) (by omega)]
+  have h1 := start_succ level lev
+  have h2 := start_le_size level (lev + 1)
+  have h3 : (order level).toArray.size = level.size := by simp [order_length]
+  generalize (start level (lev + 1) - start level lev + nt - 1) / nt = cs
+  generalize tid * cs = tc
+  constructor <;> omega
 end Amgcl.Sched
